@@ -765,3 +765,71 @@ def c16(fb, rep):
 
 
 RULES.update({'C16': c16})
+
+
+# ================================================================================================ sixth batch (rules written after looking at missed seeded changes, round 3)
+def c02b(fb, rep):
+    """R02.8: the ray / Farkas vector of an entering variable q is (Delta x_B, Delta x_q) = (-B^-1 a_q, 1) * t: in computePrimalray4Col() and
+    computeDualfarkas4Row() the entry of the entering id carries the OPPOSITE sign of the multiplier the loop applies to fVec().delta() - the two
+    siblings agree on that shape.  (written after seed C02-6 was missed)"""
+    rep.rule('R02.8', 'entering simplex: the entry of the entering variable in the ray / Farkas vector carries the opposite sign of the multiplier of the update vector', floor=2)
+    k = 0
+    for f in sorted(fb.methods_of(S), key=lambda g: g.line):
+        if not f.nodes or not re.fullmatch(r'compute(Primalray|Dualfarkas)4(Col|Row)', f.short or '') or not any(p == 'enterId' for p, t in f.params):
+            continue
+        adds = [n for n in f.nodes if n.k == 'CXXMemberCallExpr' and n.short == 'add' and len(n.args()) == 2]
+        inloop = [n for n in adds if any(a.k == 'ForStmt' for a in f.ancestors(n))]
+        after = [n for n in adds if not any(a.k == 'ForStmt' for a in f.ancestors(n))]
+        if len(inloop) != 1 or len(after) != 1:
+            rep.unrec('R02.8', f.short, f.where(), 'expected one add() inside the loop and one for the entering id')
+            continue
+        k += 1
+        m = re.match(r'\(?(-?)\(?(\w+)\)? \* ', render(strip(inloop[0].args()[1])))
+        e = re.fullmatch(r'\(?(-?)\(?(\w+)\)?\)?', render(strip(after[0].args()[1])))
+        ok = bool(m and e and m.group(2) == e.group(2) and m.group(1) != e.group(1))
+        rep.check(ok, 'R02.8', f.short, '%s:%d' % (f.file, after[0].l), 'loop: %s, entering id: %s' % (render(inloop[0].args()[1])[:30], render(after[0].args()[1])),
+                  'the loop adds `%s` and the entering id gets `%s`: both carry the same sign - the vector is not a ray / Farkas proof (the basic part moves against the entering variable)'
+                  % (render(inloop[0].args()[1])[:40], render(after[0].args()[1])))
+    if k < 2:
+        raise AnalysisBroken('R02.8: only %d functions found' % k)
+
+
+_c02a = RULES['C02']
+
+
+def _c02(fb, rep):
+    _c02a(fb, rep)
+    c02b(fb, rep)
+
+
+RULES['C02'] = _c02
+
+
+def c03d(fb, rep):
+    """R03.12: the range type of a row / column of the rational LP (free, lower, upper, boxed, fixed) decides which dual signs the exact solver accepts;
+    it is computed from the RATIONAL bounds: no call of _rangeTypeReal() has an argument converted from a rational (two different rationals can round
+    to one double, a tiny rational to 0, a large one to infinity).  (written after seed C03-6 was missed)"""
+    rep.rule('R03.12', '_rangeTypeReal() is never called with a value converted from a rational', floor=8)
+    k = 0
+    for f in sorted(fb.methods_of(C), key=lambda g: (g.file, g.line)):
+        for n in f.nodes or []:
+            if not (n.k == 'CXXMemberCallExpr' and n.short == '_rangeTypeReal'):
+                continue
+            k += 1
+            rat = [x for a in n.args() for x in a.walk() if x.t and re.search(r'Rational|gmp_rational', x.t)]
+            rep.check(not rat, 'R03.12', '%s|_rangeTypeReal#%d' % (f.short, k), '%s:%d' % (f.file, n.l), 'arguments are floating-point data',
+                      '`%s`: the range type is computed from the rounded value of the rational `%s`; bounds that differ by less than a double resolves (or exceed 1e100) get the type '
+                      'FIXED / a missing bound, and the exact solver then accepts dual multipliers of the wrong sign' % (render(n)[:70], render(rat[0])[:30] if rat else ''))
+    if k < 8:
+        raise AnalysisBroken('R03.12: only %d calls of _rangeTypeReal found' % k)
+
+
+_c03b = RULES['C03']
+
+
+def _c03x(fb, rep):
+    _c03b(fb, rep)
+    c03d(fb, rep)
+
+
+RULES['C03'] = _c03x
